@@ -758,13 +758,15 @@ impl Cursor<'_> {
                 // preferred to is_digit(10), in rust lexer
                 if self.first().is_ascii_digit() {
                     self.eat_decimal_digits();
-                    match self.first() {
-                        'e' | 'E' => {
-                            self.bump();
-                            empty_exponent = !self.eat_float_exponent();
-                        }
-                        _ => (),
+                }
+                // The fractional digits are optional: `1.e-3` is a float literal with an
+                // exponent, just as `1.0e-3` is.
+                match self.first() {
+                    'e' | 'E' => {
+                        self.bump();
+                        empty_exponent = !self.eat_float_exponent();
                     }
+                    _ => (),
                 }
                 Float {
                     base,
